@@ -47,7 +47,9 @@ CONSTANTS
                            \* loaded from the advertised tip instead of the announced commit
     RefsAtIgnoresBlock,    \* historical deviation (fixed 65d1a8b): announced sigrefs of blocked
                            \* peers were applied
-    KeepStaleRad           \* historical deviation (fixed f5433ab): `refs/rad/*` never pruned
+    KeepStaleRad,          \* historical deviation (fixed f5433ab): `refs/rad/*` never pruned
+    SkipUnloaded           \* historical deviation (fixed 82b38a1): only remotes whose signed refs
+                           \* were loaded went through the validation loop
 
 NS == 1..N
 
@@ -303,7 +305,10 @@ StageDataRefs ==
           THEN Fail("NotOurRef")
           ELSE /\ tips' = [ns \in NS |-> tips[ns] \o ups(ns)]
                /\ mem' = [ns \in NS |-> MemAll(mem[ns], ups(ns))]
-               /\ vq' = SelectSeq([i \in 1..N |-> i], LAMBDA ns : ns \in rem)
+               \* every loaded remote, and every remote with pending tips (its special refs were
+               \* advertised, but no rad/sigrefs could be loaded for it)
+               /\ vq' = SelectSeq([i \in 1..N |-> i],
+                                  LAMBDA ns : ns \in rem \/ (~SkipUnloaded /\ tips[ns] # <<>>))
                \* "The valid delegates start with all delegates that this peer currently has
                \* valid references for"
                /\ validDel' = {d \in Dels : loc[d].sig # NoSig}
@@ -331,11 +336,17 @@ ValidateOne ==
     /\ LET ns == Head(vq)
            sr == signed[ns]
            lo == loc[ns].sig
-           anc == IF lo = NoSig THEN "None" ELSE SigAncestry(lo, sr)
+           anc == IF lo = NoSig \/ sr = NoSig THEN "None" ELSE SigAncestry(lo, sr)
        IN /\ vq' = Tail(vq)
           /\ IF ns \in Blocked
              THEN \* "Skipping blocked remote"
                   UNCHANGED <<tips, stSig, validDel, failedDel, okRemotes, pc, result, err>>
+             ELSE IF sr = NoSig
+             THEN \* `data: None` arms: "Pruning ... tips, missing 'rad/sigrefs'"
+                  /\ PruneRemote(ns)
+                  /\ validDel' = validDel \ {ns}
+                  /\ failedDel' = IF ns \in Dels THEN failedDel \cup {ns} ELSE failedDel
+                  /\ UNCHANGED <<okRemotes, pc, result, err>>
              ELSE IF ns \notin Dels
              THEN \* NonDelegate: behind or diverged are pruned, non-fatal
                   IF anc \in {"Behind", "Diverged"} \/ ValidationFails(ns, sr)
@@ -452,7 +463,10 @@ BadOffer(ns) ==
     /\ \/ ~SigVerifies(s)
        \/ ~NamesThisRepoOrD1(s)
        \/ \E n \in DOMAIN Listing(s) : Listing(s)[n] \in Unavailable
-       \/ (~sc.useRefsAt /\ srv[ns].rid # "none" /\ "id" \notin DOMAIN Listing(s))   \* unsigned rad/id
+       \* an advertised rad/id that is not signed -- and that the fetch would have to keep
+       \* (a stored rad/id that is no longer signed is pruned, the advertised one with it)
+       \/ (~sc.useRefsAt /\ srv[ns].rid # "none" /\ "id" \notin DOMAIN Listing(s)
+              /\ "id" \notin DOMAIN loc0[ns].refs)
 C01_Untouched == Done => \A ns \in NS : BadOffer(ns) => loc[ns] = loc0[ns]
 
 \* Blocked namespaces (and, on a pull, our own) are never written.
